@@ -589,6 +589,39 @@ func (g *gen) history(i int) ([]string, string, bool) {
 		g.add("census")
 		toks := g.flat(cfg)
 		return toks, replayTag(toks), true
+	case kind < 18: // a client's first frame between the close of its ufrag's packet conn and that conn's cleanup
+		if g.p(30) {
+			cfg[2] = "1"
+		}
+		u := ufragPool[g.rnd(3)]
+		is6 := g.p(25)
+		ip := g.pickIP(is6)
+		g.add("get", "0", Hex(u), B(is6), Hex(ip))
+		other := g.p(40)
+		if other {
+			ra := g.newRaddrForce(is6)
+			raw := buildStun(g.c, stun.MethodBinding, stun.ClassRequest, u+":o", true, 0)
+			g.add("acc", "1", Hex(ra), B(is6), Hex(ip), "1", "64")
+			g.add("ff", "1", strconv.Itoa(len(raw)), "1", "1", Hex(u+":o"), Hex(string(raw)))
+		}
+		raddr := g.newRaddrForce(is6)
+		raw := buildStun(g.c, stun.MethodBinding, stun.ClassRequest, u+":w", true, 0)
+		g.add("acc", "0", Hex(raddr), B(is6), Hex(ip), "1", "64")
+		g.add("hcloseff", "0", "0", strconv.Itoa(len(raw)), "1", "1", Hex(u+":w"), Hex(string(raw)))
+		g.add("stat", "0")
+		// the agent comes back for the ufrag: the parked client's first message is waiting there
+		g.add("get", "7", Hex(u), B(is6), Hex(ip))
+		g.add("rd", "7")
+		g.add("wr", "7", Hex(raddr), Hex("reply"))
+		g.add("crecv", "0")
+		g.add("stat", "0")
+		if other {
+			g.add("stat", "1")
+		}
+		g.add("census")
+		g.c.Count("hist:first-frame-in-close-window")
+		toks := g.flat(cfg)
+		return toks, replayTag(toks), true
 	case kind < 26: // several clients of one ufrag on one packet conn: per-peer order, replies per peer
 		if g.p(30) {
 			cfg[2] = "1"
